@@ -7,7 +7,7 @@
 From Coq Require Import List Bool NArith Arith.
 Import ListNotations.
 From Verif Require Import Gen.Tables C06.Base C06.LazySeq C06.Spec C06.Machine
-  C06.ProofsBig C06.ProofsLazy C06.ProofsMap C06.ProofsTake
+  C06.ProofsBig C06.ProofsLazy C06.ProofsMap C06.ProofsTake C06.ProofsFilter C06.ProofsConcat C06.ProofsRoots
   C06.ProofsMachine C06.ProofsConc C06.ProofsLock C06.ProofsAgree C06.Refuted.
 
 (* ---------------------------------------------------------------------------------------------- *)
@@ -206,6 +206,46 @@ Theorem C06_no_overrealization_iterator_seq : forall restore f it m vs c s acc,
     /\ nth_error (iters s') it = Some (ItList (map IVal (skipn m vs))).
 Proof. exact ProofsMap.walk_seqit. Qed.
 
+(** (filter p s): forcing ONE element runs the source producers up to and including the first match (all of
+    them and the final nil cell when nothing matches) -- through the loop of LazySeq::seq over the lazy seqs
+    the generator returns for rejected elements -- and not one more; p is applied once per element inspected *)
+Theorem C06_no_overrealization_filter : forall restore f p vs b j c s,
+  filter_at p vs b j c s -> j <= length vs ->
+  let jm := first_match p vs j (S (length vs - j)) in
+  exists s' o,
+    ev restore (S (S (S (S (S (S (S (S (S ((length vs - j) + f)))))))))) (CSeq c) s = (s', Ok o)
+    /\ match_obj vs jm o
+    /\ chain_at vs b (S jm) s'
+    /\ fcalls s' = (fcalls s + N.of_nat (jm - j + (if Nat.ltb jm (length vs) then 1 else 0)))%N.
+Proof. exact ProofsFilter.seq_filter. Qed.
+
+(** (concat s rest ...): m <= (count s) elements realize exactly the first m cells of s, and the chain iterator
+    still holds [rest] untouched: no later input is looked at before s is exhausted *)
+Theorem C06_no_overrealization_concat : forall restore f vs b rest m j it c s acc,
+  concat_at vs b j it c rest s -> j + m <= length vs ->
+  exists s' c',
+    walk restore (S (S (S (S (S (S (S (S (S (S (S f))))))))))) m (OLazy c) acc s =
+      (s', Ok (OLazy c'), rev (chain_vals vs j m) ++ acc)
+    /\ concat_at vs b (j + m) it c' rest s'.
+Proof. exact ProofsConcat.walk_concat. Qed.
+
+(** the premises above are met by what (map f s) / (filter p s) / (take k s) / (iterate f x) /
+    (iterator-seq it) / (concat s ...) build over an instrumented chain *)
+Example C06_roots_meet_the_premises : forall fn p k x vs xs rest,
+  map_at fn vs 0 0 (S (length vs)) (fst (build_root (RMap fn (RObj (OLazy 0))) (s0 vs []))) /\
+  filter_at p vs 0 0 (S (length vs)) (fst (build_root (RFilter p (RObj (OLazy 0))) (s0 vs []))) /\
+  take_at k vs 0 0 (S (length vs)) (fst (build_root (RTake k (RObj (OLazy 0))) (s0 vs []))) /\
+  iter_at fn x (S (length vs)) (fst (build_root (RIterate fn x) (s0 vs []))) /\
+  (let s := fst (build_root (RItSeq 0) (s0 vs [ItList (map IVal xs)])) in
+   seqit_at 0 (S (length vs)) s /\ nth_error (iters s) 0 = Some (ItList (map IVal xs))) /\
+  concat_at vs 0 0 0 (S (length vs)) rest
+    (fst (build_root (RConcat (RObj (OLazy 0) :: map RObj rest)) (s0 vs []))).
+Proof.
+  intros. split; [exact (ProofsRoots.map_root fn vs)|split; [exact (ProofsRoots.filter_root p vs)|
+    split; [exact (ProofsRoots.take_root k vs)|split; [exact (ProofsRoots.iterate_root fn x vs)|
+    split; [exact (ProofsRoots.seqit_root vs xs)|exact (ProofsRoots.concat_root vs rest)]]]]].
+Qed.
+
 Print Assumptions C06_table_shapes.
 Print Assumptions C06_table_error_path_restores.
 Print Assumptions C06_table_lock_keeps_gil.
@@ -232,3 +272,6 @@ Print Assumptions C06_no_overrealization_map.
 Print Assumptions C06_no_overrealization_take.
 Print Assumptions C06_no_overrealization_iterate.
 Print Assumptions C06_no_overrealization_iterator_seq.
+Print Assumptions C06_no_overrealization_filter.
+Print Assumptions C06_no_overrealization_concat.
+Print Assumptions C06_roots_meet_the_premises.
